@@ -66,7 +66,7 @@ def tlc(module, cfg=None, env=None, workers=8, timeout=600, extra=(), cwd=SPEC, 
     """Runs TLC on spec/<module>.tla with spec/<cfg>. Returns TLCResult. Raises MachineryError on crash."""
     cfg = cfg or module + ".cfg"
     metadir = metadir or os.path.join(RunCtx.current_dir(), "tlc-%s-%d" % (module, int(time.time() * 1000) % 10 ** 9))
-    cmd = ["timeout", str(timeout), "java", "-XX:+UseParallelGC", "-Xmx" + heap]
+    cmd = ["timeout", str(timeout), "java", "-XX:+UseParallelGC", "-XX:ParallelGCThreads=%d" % max(2, min(8, workers)), "-Xmx" + heap]
     if dfs:
         cmd.append("-Dtlc2.tool.queue.IStateQueue=StateDeque")
     cmd += ["-cp", JAR, "tlc2.TLC", "-workers", str(workers), "-metadir", metadir, "-noGenerateSpecTE",
